@@ -25,9 +25,9 @@ run_one() {
       GOVC_REPO="$w/r" GOVC_OUT="$o" ./bin/govc check "$p" --tier quick > "$o/$p.log" 2>&1; rc=$?
       obl=$(grep '^VIOLATION' "$o/$p.log" | sed 's/.*obligation=//' | cut -d' ' -f1 | sort -u | head -4 | tr '\n' ' ')
       nv=$(grep -c '^VIOLATION' "$o/$p.log")
-      conf=$(grep -l 'VIOLATION-CONFIRMED' "$o"/replays/$p/*.json 2>/dev/null | wc -l)
+      conf=$(grep '^VIOLATION' "$o/$p.log" | grep -vc 'no-failing-input-found')   # counterexample replayed, or a stand-in's failing input
       if [ $rc = 1 ] && [ "$nv" -gt 0 ]; then st=DETECTED; else st="MISSED(exit=$rc)"; fi
-      echo -e "$name\t$p\t$st\t$nv violation(s), $conf replayed on the real code\t$obl"
+      echo -e "$name\t$p\t$st\t$nv violation(s), $conf with a failing input on the real code\t$obl"
       if [ -n "${SELFTEST_KEEP:-}" ]; then mkdir -p "$SELFTEST_KEEP"; python3 - "$o/replays/$p" > "$SELFTEST_KEEP/$name.$p.txt" 2>/dev/null <<'PY'
 import json,glob,sys
 for f in sorted(glob.glob(sys.argv[1]+'/*.json')):
